@@ -139,3 +139,42 @@ pub fn jobs_from_env() -> usize {
     let n = std::thread::available_parallelism().map(|n| n.get()).unwrap_or(4);
     std::env::var("VERIF_JOBS").ok().and_then(|s| s.parse().ok()).unwrap_or(n.min(16)).max(1)
 }
+
+/// fork() duplicates every open descriptor of this process into the child until it execs. A store's LOCK file that a
+/// worker thread closes inside that window stays locked (the child still holds a copy) and the worker's next open of
+/// the same directory is refused. Spawning therefore takes this lock exclusively and every in-process
+/// `TreeBuilder::build()` takes it shared, so a build never overlaps the fork itself. That is not enough on its own:
+/// the kernel wakes a vfork parent (and closes std's exec-notification pipe) *before* it closes the child's remaining
+/// close-on-exec descriptors, so for a few microseconds after `spawn()` returns the child may still hold a copy of
+/// another worker's LOCK descriptor. `build_tree_retry` absorbs that window.
+pub static SPAWN_LOCK: std::sync::RwLock<()> = std::sync::RwLock::new(());
+
+pub fn build_tree(o: surrealkv::Options) -> surrealkv::Result<surrealkv::Tree> {
+    let _g = SPAWN_LOCK.read().unwrap_or_else(|e| e.into_inner());
+    surrealkv::TreeBuilder::with_options(o).build()
+}
+
+/// Like `build_tree`, but an "already locked by another process" refusal is retried for up to one second. Only for
+/// call sites where the harness itself knows that no store is open on the directory (it closed it, or it just wrote
+/// the directory): there the only possible holder is a sibling worker's child between fork and the end of exec (see
+/// `SPAWN_LOCK`). A store that really keeps its lock after `close()` is still refused after the retries and reported.
+pub fn build_tree_retry(o: surrealkv::Options) -> surrealkv::Result<surrealkv::Tree> {
+    let mut tries = 0;
+    loop {
+        match build_tree(o.clone()) {
+            Err(e) if tries < 500 && format!("{e:?}").contains("is already locked by another process") => {
+                tries += 1;
+                LOCK_RETRIES.fetch_add(1, std::sync::atomic::Ordering::Relaxed);
+                std::thread::sleep(std::time::Duration::from_millis(2));
+            }
+            other => return other,
+        }
+    }
+}
+
+pub static LOCK_RETRIES: std::sync::atomic::AtomicU64 = std::sync::atomic::AtomicU64::new(0);
+
+pub fn spawn_child(cmd: &mut std::process::Command) -> std::io::Result<std::process::Child> {
+    let _g = SPAWN_LOCK.write().unwrap_or_else(|e| e.into_inner());
+    cmd.spawn()
+}
